@@ -154,6 +154,7 @@ package newick
 //@   ensures !special ==> len(result) == len(s) && forall k int :: 0 <= k && k < len(s) ==> result[k] == (s[k] == 32 ? '_' : s[k])
 //@   ensures !special ==> forall k int :: 0 <= k && k < len(result) ==> !nwWS(result[k]) && !nwSep(result[k]) && result[k] != 39
 //@   ensures special ==> len(result) >= 2 && result[0] == 39 && result[len(result) - 1] == 39
+//@   ensures special ==> len(result) == len(dq(s)) + 2 && forall k int :: 0 <= k && k < len(dq(s)) ==> result[1 + k] == dq(s)[k]
 
 //@ func quoted
 //@   props C05
@@ -161,5 +162,6 @@ package newick
 
 //@ func nameFromText
 //@   props C05 C11
+//@   ensures len(s) >= 2 && s[0] == 39 && s[len(s) - 1] == 39 ==> result == uq(substr(s, 1, len(s) - 1))
 //@   ensures !(len(s) >= 2 && s[0] == 39 && s[len(s) - 1] == 39) ==>
 //@             len(result) == len(s) && forall k int :: 0 <= k && k < len(s) ==> result[k] == (s[k] == '_' ? 32 : s[k])
